@@ -6,6 +6,18 @@ use crate::util::Json;
 pub fn run(ctx: &Ctx) -> i32 {
     if let Some(r) = &ctx.replay {
         let key = r.get("key").and_then(|k| k.as_str()).unwrap_or("").to_string();
+        if key.contains("|tree=") {
+            let mut rep = crate::framework::Report::new();
+            if !crate::checks::c12::replay_tree(ctx, &key, &mut rep) {
+                return 2;
+            }
+            rep.evaluations = 2;
+            rep.distinct_nontrivial = 2;
+            rep.rule = "replay of one composite over an adversarial inner transform in a worker process, run twice".into();
+            rep.sample(Json::Str(key));
+            std::env::set_var("VERIF_EVIDENCE_PART", "replay");
+            return finalize(ctx, rep);
+        }
         if key.contains("monitor=memcheck") {
             let mut rep = crate::framework::Report::new();
             crate::vg::replay(ctx, &key, &mut rep);
@@ -39,6 +51,9 @@ pub fn run(ctx: &Ctx) -> i32 {
         "over-reads that stay inside another chunk of the same caller buffer are not violations of the property and are not flagged".into(),
         "reads of the instance's own tables past their end are seen by the debug-assertion flavour's index checks and, on the reduced length set of the memcheck pass, by valgrind".into(),
     ];
+    // composites over an adversarial (safe, promise-breaking) inner transform, both flavours
+    crate::checks::c12::run_adversarial_for_c03(ctx, &mut rep);
+    rep.rule.push_str(" ADVERSARIAL INNER TRANSFORMS: every public constructor over a safe user-written Fft whose len() and scratch lengths change after the composite was constructed (see C12's rule text for the tree set), all four entry points, guard pages at both placements: panics are fine, a fatal signal or an unsafe-precondition abort is a violation.");
     if ctx.flavour == "rel" {
         // second monitor: the same kind of calls with heap buffers under valgrind memcheck (instance tables included)
         crate::vg::run_pass(ctx, &mut rep);
